@@ -8,7 +8,9 @@ package main
 import (
 	"context"
 	"fmt"
+	"strings"
 	"sync"
+	"sync/atomic"
 	"time"
 
 	"github.com/ChainSafe/sygma-relayer/comm"
@@ -57,8 +59,20 @@ func c9excl(a []string) string {
 			_ = w.coord.Execute(ctx, []tss.TssProcess{w.proc("x2", "p")}, make(chan interface{}, 1))
 		}),
 	}
+	// Registries that do not exclude their users make every concurrent use below a candidate for Go's fatal "concurrent
+	// map" error, which would end the driver and lose every line still in its output buffer - this one included. From
+	// here on the C09 ops that use the registries concurrently therefore answer `skipped` instead of running.
+	for _, o := range out[:5] {
+		if strings.HasSuffix(o, "=0") {
+			c9RegistriesUnsafe.Store(true)
+		}
+	}
 	return joinOr(out, ",")
 }
+
+var c9RegistriesUnsafe atomic.Bool
+
+const c9skipped = "skipped:the-registry-locks-do-not-exclude-their-users,see-the-excl-line-of-this-run"
 
 // C09.latesend   a stream of the session is being closed by ReleaseStreams (its Close() is held at a gate) when another
 //
@@ -66,6 +80,9 @@ func c9excl(a []string) string {
 //	up registered with the stream manager or closed - never neither.
 //	=> lost=<streams neither registered nor closed after the release>,open=<streams still open after one more CloseSession>
 func c9latesend(a []string) string {
+	if c9RegistriesUnsafe.Load() {
+		return c9skipped
+	}
 	w := newC9World()
 	c := w.ledger.inner
 	sid := "late1"
@@ -105,6 +122,9 @@ func c9latesend(a []string) string {
 //	gets registered; the others must not stay open for ever.
 //	=> reg=<registered for the session>,open=<streams still open after CloseSession>
 func c9twosends(a []string) string {
+	if c9RegistriesUnsafe.Load() {
+		return c9skipped
+	}
 	n := int(u64(a[0]))
 	w := newC9World()
 	c := w.ledger.inner
@@ -128,6 +148,9 @@ func c9twosends(a []string) string {
 //
 //	communication object, over three session ids. => live=…,streams=…,open=… after everybody is done and every session closed
 func c9hammer(a []string) string {
+	if c9RegistriesUnsafe.Load() {
+		return c9skipped
+	}
 	n := int(u64(a[0]))
 	w := newC9World()
 	c := w.ledger.inner
